@@ -119,6 +119,7 @@ def run(rep, tier, seed):
     le = imp()
     rep.broken = []
     rep.compared = 0
+    rep.trail = []      # one entry per Licensing used so far: other Licensing objects are the only shared context
     maxlen = 6 if tier == 'thorough' else 5
     tables = flag_tables()
     Ls = [make_licensing(T) for T in tables]
@@ -136,6 +137,7 @@ def run(rep, tier, seed):
                     reqs.append((4, [encT, 0, 0, int(simple), s]))
                     reqs.append((4, [encT, 0, 1, int(simple), s]))
                 model = run_model(reqs)
+            rep.trail.append({'table': T, 'tokens': list(strings[-1]), 'simple': simple})
             for i, t in enumerate(strings):
                 err, ns, st = check_one(t, simple, T, L, base.get(t))
                 if ti == 0:
@@ -149,7 +151,8 @@ def run(rep, tier, seed):
                     rep.count('strict_ok' if st[0] == 0 else 'strict_rejected_%s' % (st[1] if st[0] == 1 else 'other'))
                 if err:
                     rep.violations.append({'key': 'strict', 'kind': 'tokens', 'tokens': list(t), 'simple': simple,
-                                           'table': T, 'text': gen.render_tokens(t), 'what': err})
+                                           'table': T, 'base_table': tables[0], 'text': gen.render_tokens(t), 'what': err,
+                                           '_at': len(rep.trail) - 1})
                     continue
                 if model is not None:
                     rep.compared += 2
@@ -162,5 +165,10 @@ def replay(payload):
     T = [tuple(x) for x in payload['table']]
     T = [(k, a, e) for k, a, e in T]
     L = make_licensing(T)
-    err, ns, st = check_one(tuple(payload['tokens']), payload.get('simple', False), T, L, None)
+    base = None
+    if payload.get('base_table') is not None:
+        T0 = [(k, a, e) for k, a, e in payload['base_table']]
+        base = parsing.parse_outcome(make_licensing(T0), gen.render_tokens(tuple(payload['tokens'])), strict=False,
+                                     simple=payload.get('simple', False))
+    err, ns, st = check_one(tuple(payload['tokens']), payload.get('simple', False), T, L, base)
     return err is None, (err or 'strict rule holds') + ' nonstrict=%r strict=%r' % (ns, st)
